@@ -385,3 +385,89 @@ def mode_is_writable(kind: str, mode: Optional[str]) -> bool:
     if kind in ("open", "Path.open"):
         return any(ch in mode for ch in "wax+")
     return True
+
+
+# ---------------------------------------------------------------------------------------------
+# rules shared by several properties
+
+PATHISH = ("_abs_path(", "_gpath", ".name", "_base_dir", "to_meta_base_path(", "to_data_node_path(")
+PATH_PARAMS = {"path", "source", "dest", "src", "dst", "target", "target_path", "name", "key", "gpath", "prefix_path"}
+
+
+def r_path_prefix_tests(P, rep, ctx, rule: str, modules):
+    """Whether one node path lies below another is a question about path SEGMENTS.  `a.startswith(b)` on two paths is true
+    for siblings whose names merely begin alike (`/exp/run` vs `/exp/run2`, `/run1` vs `/run10`): a containment test between
+    two path expressions must compare with a trailing '/' (`b.rstrip('/') + '/'`), go through parents / parts, or be an
+    equality."""
+    from .sem import F
+
+    n = 0
+    for fi in P.functions.values():
+        if fi.module.name not in modules:
+            continue
+        f = None
+        for c in local_calls(fi.node):
+            if not (isinstance(c.func, ast.Attribute) and c.func.attr == "startswith" and len(c.args) == 1):
+                continue
+            f = f or F(ctx, fi)
+            site = node_of(f.g, c)
+            recv = f.x_at(site, c.func.value) if site is not None else norm(c.func.value)
+            arg_e = f.xe_at(site, c.args[0]) if site is not None else c.args[0]
+            arg = norm(arg_e)
+            if isinstance(arg_e, (ast.Constant, ast.JoinedStr)) or arg.isupper() or "METADOR_" in arg or "PREF" in arg:
+                continue  # constant prefixes (reserved-name tests) are C08.R4's business
+
+            def pathish(t, e):
+                return any(k in t for k in PATHISH) or (isinstance(e, ast.Name) and e.id in PATH_PARAMS and e.id in fi.params)
+
+            if not (pathish(recv, c.func.value) and pathish(arg, c.args[0])):
+                continue
+            n += 1
+            closed = arg.endswith("+ '/'") or arg.endswith("/'") or "rstrip('/') + '/'" in arg or arg.endswith(".parent") or "+ '/'" in arg
+            rep.check(closed, rule, fi.qual, f"path containment test is segment-aware: {norm(c)[:60]}", fi.loc(c), construct=f"{fi.name}: {norm(c)[:80]}",
+                      message=f"`{norm(c)[:100]}` in {fi.qual} tests whether one node path lies below another with a plain string prefix: sibling nodes whose names begin alike (`/exp/run` and `/exp/run2`) are treated as nested, so an operation on one is refused for / applied to the other")
+    if n == 0:
+        rep.ok(rule, "+".join(sorted(modules)), "no path-in-path prefix tests (nothing to check)", "")
+    return n
+
+
+def r_raw_argument_after_normalisation(P, rep, ctx, rule: str, modules):
+    """`name, vers = plugin_args(schema, version)` turns the caller's (schema, version) -- a name, a (name, version) pair, a
+    plugin class or reference -- into the normal form.  The version of the request is `vers`; the raw `version` parameter is
+    only the explicitly passed one (None when the version came with the class / reference / pair) and must not be consulted
+    again after the normalisation."""
+    from .sem import F
+
+    n = 0
+    for fi in P.functions.values():
+        if fi.module.name not in modules or not isinstance(fi.node, (ast.FunctionDef, ast.AsyncFunctionDef)):
+            continue
+        g = None
+        for st in walk_local(fi.node):
+            if not (isinstance(st, ast.Assign) and len(st.targets) == 1 and isinstance(st.targets[0], ast.Tuple) and len(st.targets[0].elts) == 2 and isinstance(st.value, ast.Call)):
+                continue
+            fn = st.value.func
+            if not ((isinstance(fn, ast.Name) and fn.id == "plugin_args") or (isinstance(fn, ast.Attribute) and fn.attr == "plugin_args")) or len(st.value.args) < 2:
+                continue
+            raw = st.value.args[1]
+            tgt = st.targets[0].elts[1]
+            if not (isinstance(raw, ast.Name) and raw.id in fi.params and isinstance(tgt, ast.Name) and tgt.id != raw.id):
+                continue
+            g = g or ctx.cfg(fi)
+            site = node_of(g, st.value)
+            if site is None:
+                continue
+            n += 1
+            after = g.reach([b for b, lab in g.succ[site]])
+            bad = []
+            for m in after:
+                nd = g.nodes[m]
+                for e in nd.exprs:
+                    if e is None or m == site:
+                        continue
+                    for x in ast.walk(e):
+                        if isinstance(x, ast.Name) and x.id == raw.id and isinstance(x.ctx, ast.Load):
+                            bad.append((m, nd))
+            rep.check(not bad, rule, fi.qual, f"after plugin_args the request's version is `{tgt.id}`, not the raw parameter `{raw.id}`", fi.loc(st), construct=f"{fi.name}: raw `{raw.id}` after plugin_args",
+                      message=f"{fi.qual} reads the raw parameter `{raw.id}` again after `{norm(st)[:70]}` ({'; '.join(sorted({nd.text()[:50] for m, nd in bad}))[:140]}): when the version comes with the schema class / reference / (name, version) pair the parameter is None, so the request is treated as version-less (e.g. a versioned query also returns incompatible releases)")
+    return n
